@@ -212,13 +212,14 @@ Definition curved_rot (a0 a1 : V3) : option M3 :=
                | Some r2 => Some (mm3 r2 r1)
                end
   end.
-(* repaired alignment (proposed fix C19_curved-detector-antiparallel-axes): the matrix whose columns are the
-   images of the native frame, -e_y -> axes[0], e_z -> axes[1], e_x -> -(axes[0] x axes[1]) *)
+(* alignment since fix 5d26109 (r1 as before, r2 = rotation about axes[0] taking r1 e_z to axes[1]), in closed form:
+   for perpendicular axes r2 r1 is the matrix whose columns are the images of the native frame,
+   -e_y -> axes[0], e_z -> axes[1], e_x -> -(axes[0] x axes[1]) *)
 Definition curved_frame (a0 a1 : V3) : M3 :=
   let b0 := sdiv3 a0 (norm3 a0) in let b1 := sdiv3 a1 (norm3 a1) in
   tr3 (neg3 (cross3 b0 b1), neg3 b0, b1).
-(* [fixed = false]: the code as it is (two successive rotation_matrix_from_to); [fixed = true]: repaired.
-   The harness measures which one /repo shows. *)
+(* [fixed = false]: the alignment before 5d26109 (two successive rotation_matrix_from_to); [fixed = true]: the
+   current one.  The harness measures which one /repo shows. *)
 Definition mk_curved (fixed sph : bool) (a0 a1 : V3) (r : T) : option det3d :=
   if norm3 (cross3 a0 a1) =? 0 then None
   else if tiny * norm3 a0 * norm3 a1 <? nabs (dot3 a0 a1) then None     (* axes not perpendicular (rel. 1e-10) *)
